@@ -92,6 +92,18 @@ def run(tier, seed):
     files += _dec.tiny_files(exe, seed, 6 if tier == "quick" else 30)
     n = 1500 if tier == "quick" else 25000
     stats, fails = core.hyp_search(lambda: _dec.case_strategy(len(files)), make_hyp_eval(exe, files), n, seed)
+    # regression tier: the saved inputs of repaired findings (seconds)
+    import glob
+    import os
+    reg = sorted(glob.glob(os.path.join(core.ROOT, "seeded", "F02-delta-excursion", "*.bz2")))
+
+    def reg_eval(path, st_):
+        with open(path, "rb") as fh:
+            return eval_bytes(exe, fh.read(), {"n": 2, "sched": None, "ing": None}, st_, ["regression:" + os.path.basename(path)],
+                              "regression")
+    s0, f0 = core.pmap_cases(reg_eval, reg)
+    stats.merge(s0)
+    fails += f0
     from props import _gen
     s2, f2 = _gen.run_c05(exe, tier, seed, eval_bytes)
     stats.merge(s2)
